@@ -36,7 +36,7 @@ def suite_ok(tree):
 def main():
     ids = sys.argv[1:] or sorted(d for d in os.listdir('/tmp/mut') if d.startswith('C'))
     for pid in ids:
-        for k in range(1, 19):
+        for k in range(1, 21):
             src = f'/tmp/mut/{pid}/out/m{k}'
             if not os.path.isdir(src):
                 continue
